@@ -16,6 +16,7 @@ mod h_c10;
 mod h_c12;
 mod h_c17;
 mod h_dom;
+mod h_ffi;
 mod h_proc;
 mod h_ps;
 mod h_reloc;
@@ -70,6 +71,8 @@ fn harnesses() -> Vec<Box<dyn Harness>> {
         Box::new(h_dom::DomainHarness { ipc: true }),
         Box::new(h_dom::SemanticEditHarness),
         Box::new(h_dom::ConceptHarness),
+        Box::new(h_ffi::FfiHarness { ipc: false }),
+        Box::new(h_ffi::FfiHarness { ipc: true }),
         Box::new(h_c17::ShutdownHarness { ipc: false }),
         Box::new(h_c17::ShutdownHarness { ipc: true }),
         Box::new(h_ws::WaitSetHarness { ipc: false }),
@@ -111,6 +114,7 @@ fn spec_for<'a>(hs: &'a [Box<dyn Harness>], prop: &'a str) -> CheckSpec<'a> {
         "C14" => "one evaluation = one simulated history of 4..40 operations on one relocatable structure (RelocatableVec/Queue/String/SlotMap/FlatMap, both index queues, both index sets, bit set, registry container, used-chunk list, shm pool and bump allocator management blocks, and the FixedSize flavours) built inside an mmap'ed arena, executed in lock-step on an identical twin; at seeded points (before first use and/or between operations, probability 0.05/0.15/0.4 per operation) the arena is copied byte for byte to a fresh mapping and the old mapping is scrambled and made inaccessible for the rest of the run; every observation (return value, length, full contents, offsets handed out by the allocators) must equal the twin's, and any access to an old address kills the forked run (reported with operation and fault address). distinct_nontrivial = distinct (structure, capacity, history incl. relocation points) plans",
         "C15" => "one evaluation = either one simulated history of 12..60 slice publish-subscribe calls (create/drop publisher with allocation strategy Static/BestFit/PowerOfTwo and an initial_max_slice_len, create/drop subscriber, loan_slice_uninit of a seeded length under a growing ceiling, send, drop loan, receive, release, update_connections; element type u8 or u64; local and ipc variants) checked against the lock-step delivery model plus the memory oracle (self-describing payloads, all held samples and loans re-read after every call, alignment, pairwise disjointness, no OutOfMemory within limits, ExceedsMaxLoanSize on Static, documented loss counted), or one history of 4..50 allocate/free(/relocate management block) operations on one allocator (bb PoolAllocator, BumpAllocator, OneChunkAllocator, shm PoolAllocator) over a segment of 1..2400 bytes with a seeded misalignment that ends at a guard page, bucket layouts with size not a multiple of the alignment, request sizes 0..300 and alignments 1..4096, checked against an interval model. distinct_nontrivial = distinct plans (configuration + operation history)",
         "C19" => "one evaluation = either one simulated history of 12..60 operations of two domains (one of 8 kinds of configuration pairs: unrelated prefixes in one root; prefix of one another, both orders; unrelated roots with equal prefix; nested roots; roots that are string prefixes; nested root with extended prefix; everything different) on 2 hot service names out of 9 adversarial ones and 10 adversarial node names: node create/drop, publish-subscribe or event service open_or_create/drop, ports, send/notify, receive/wait, Node::list, Service::list, does_exist, cleanup — judged by the path monitor (every recorded path argument), the per-domain model and the data tags; or one history of 3..30 edits (push, push_bytes, insert, insert_bytes, pop, remove, remove_range, truncate, strip_prefix, strip_suffix, retain over an alphabet with separators, dots, NUL, backslash, non-ASCII) on a FileName, Path or FilePath. distinct_nontrivial = distinct plans",
+        "C18" => "one evaluation = one simulated history of 8..45 lock-step operations of a C and a Rust party of each kind (publisher, subscriber, notifier, listener) on one slice publish-subscribe service and one event service (max_loaned 1..3, initial_max_slice_len 1..12, strategy Static/BestFit/PowerOfTwo, buffer 2..8, optional event deadline, creator dialect seeded): loan of a seeded length (20% beyond the initial maximum), drop loan, send loan, send_slice_copy, receive-all, notify with custom id 0..39 (ids above 31 are out of bounds), try_wait, clock advance, drop + re-create the C publisher; every call's outcome through the C API is compared with the Rust API's. distinct_nontrivial = distinct plans",
         "C09" => "one evaluation = one simulated execution of 2..3 threads doing generated acquire/release(/lock-if-last) sequences on a real index set or pool allocator of capacity 1..4, one run in four of the robust set kills a thread mid-operation and recovers its owner id; distinct_nontrivial = distinct (plan, schedule/fault signature) pairs among runs with at least one context switch or injected fault",
         _ => "one evaluation = one simulated execution of a generated scenario; distinct_nontrivial = distinct (plan, schedule/fault signature) pairs among runs with at least one context switch or injected fault",
     };
